@@ -240,3 +240,54 @@ def rule_pairs(ctx, rep, langs=ALL_LANGS):
         else:
             rep.ok(R, lang, '%d pairs: accepted only when the words spell one number' % len(jobs[lang]))
     rep.floor(R, total, 5000, 'pairs validated')
+
+
+def rule_ordinal_roundtrip(ctx, rep, langs=('en', 'fr', 'de', 'nl', 'it')):
+    R = 'A0-ORDINALS'
+    rep.rule(R, 'the validator path turns the standard spelling of the n-th ordinal into the digits of n, carries the language\'s ordinal marker '
+                'for that form and refuses any further word (frozen): every n below 1000 (10 000 thorough) plus samples, for en, fr, de, nl, it '
+                '(es / pt compose ordinals from several inflected words: covered word by word in A2)')
+    from ..spellers import ordinal_spellings, en_ordinal_marker
+    hi = 10000 if ctx.tier == 'thorough' else 1000
+    ns = sorted(set(list(range(1, hi)) + [1000, 1001, 1021, 1100, 2000, 2003, 9999, 10000, 12345, 21000, 99999, 100000]))
+    jobs = {}
+    for lang in langs:
+        items = []
+        for n in ns:
+            for vi, toks in enumerate(ordinal_spellings(lang, n)):
+                items.append(((n, vi), toks))
+        jobs[lang] = items
+    res = getattr(ctx, 'memo_disk', ctx.memo)(('phrases-ordinals', ctx.tier, tuple(langs)), lambda: run_jobs(ctx, jobs))
+    total = 0
+    for lang in langs:
+        lx = lexicon(lang)
+        marks = {}
+        for o in lx['ordinals']:
+            marks.setdefault(o['w'], o['marker'])
+        bad = {}
+        unk = None
+        for (n, vi), toks in jobs[lang]:
+            total += 1
+            r = res[lang][(n, vi)]
+            if r[0] == '?':
+                unk = (toks, r[1])
+                break
+            if lang == 'en':
+                want_m = en_ordinal_marker(n)
+            else:
+                last = toks[-1].split('-')[-1]
+                cands = [w for w in marks if last.endswith(w)]
+                want_m = marks[max(cands, key=len)] if cands else None
+            ok = r[0] == 'Ok' and r[1] == str(n) and r[2] is not None and (want_m is None or r[2] == want_m)
+            if not ok:
+                bad.setdefault(' '.join(toks)[-8:], []).append((n, toks, r, want_m))
+        if unk:
+            rep.anchor(R, lang, 'cannot interpret "%s": %s' % (' '.join(unk[0]), unk[1]))
+            continue
+        for tail, items in sorted(bad.items()):
+            n, toks, r, want_m = items[0]
+            rep.violation(R, '%s|..%s' % (lang, tail), 'the ordinal "%s" (rank %d) validates to %s, expected digits %d with the marker %s (%d spellings ending like this fail, e.g. %s)' % (
+                ' '.join(toks), n, r, n, want_m, len(items), [x[0] for x in items[:6]]))
+        if not bad:
+            rep.ok(R, lang, '%d ranks' % len(ns))
+    rep.floor(R, total, 4500, 'ordinal phrases validated')
